@@ -438,7 +438,10 @@ class SymEval:
         raise NotSymbolic(f"attribute {n.attr}")
 
     def e_Subscript(self, n):
-        v = self.eval(n.value)
+        return self._subscript(self.eval(n.value), n)
+
+    def _subscript(self, v, n):
+        """Subscript of an already evaluated base (the base expression may have side effects: evaluate it once)."""
         idx = self._index(n.slice)
         if isinstance(v, dict):
             return v[idx]
@@ -492,7 +495,8 @@ class SymEval:
                 args = args[:1]
             return fn(*args, **kwargs)
         if isinstance(f, ast.Attribute):
-            base = self.eval(f.value)
+            # a subclass that has already evaluated the receiver (it may have side effects) hands it over
+            base = self.__dict__.pop("_receiver", None) if "_receiver" in self.__dict__ else self.eval(f.value)
             if isinstance(base, np.ndarray):
                 fn = _METHODS.get(f.attr)
                 if fn is None:
